@@ -105,7 +105,11 @@ def _worker(args):
                 continue
             scn['seed'] = [base_seed, it]
             seedrep = it
+        t_run = time.time()
         viols, info, herr = run_one(spec, scn)
+        t_run = time.time() - t_run
+        if t_run > agg['slowest'][0]:
+            agg['slowest'] = (round(t_run, 3), seedrep)
         agg['runs'] += 1
         if herr is not None:
             if len(agg['harness_errors']) < 5:
@@ -130,7 +134,7 @@ def new_agg():
     return {'runs': 0, 'vt': 0.0, 'steps': 0, 'faults': {}, 'probes': {}, 'digests': set(),
             'nontrivial_digests': set(), 'sigs': set(), 'viol_keys': {}, 'viol_first': {},
             'n_viol_runs': 0, 'harness_errors': [], 'n_harness_errors': 0, 'samples': [],
-            'ordinal_fired': 0, 'preempts': 0, 'cut_short': False, 'wall': 0.0, 'counters': {}}
+            'ordinal_fired': 0, 'preempts': 0, 'cut_short': False, 'wall': 0.0, 'counters': {}, 'slowest': (0.0, None)}
 
 
 def merge_info(agg, spec, scn, info):
@@ -169,6 +173,8 @@ def merge_agg(a, b):
     if len(a['samples']) < 3:
         a['samples'] += b['samples'][:3 - len(a['samples'])]
     a['cut_short'] = a['cut_short'] or b['cut_short']
+    if b['slowest'][0] > a['slowest'][0]:
+        a['slowest'] = b['slowest']
 
 
 # ------------------------------------------------------------------ shrink
@@ -444,7 +450,7 @@ def run_check(spec, tier, seed, workers=None, runs=None, budget_s=None, out=sys.
         def fails(c, _v=viol):
             vs, info, herr = run_one(spec, c)
             return herr is None and any(x['clause'] == _v['clause'] and x['tag'] == _v['tag'] for x in vs)
-        small, tries = shrink(scn, fails, budget_s=40 if tier == 'quick' else 120)
+        small, tries = shrink(scn, fails, budget_s=12 if tier == 'quick' else 60)
         vs, info, herr = run_one(spec, small)
         vv = [x for x in vs if x['clause'] == viol['clause'] and x['tag'] == viol['tag']]
         if not vv:
@@ -494,6 +500,7 @@ def run_check(spec, tier, seed, workers=None, runs=None, budget_s=None, out=sys.
         'replays': replays,
         'cut_short_by_wall_budget': agg['cut_short'],
         'workers': workers,
+        'slowest_run': {'wall_s': agg['slowest'][0], 'seed_index': agg['slowest'][1]},
     }
     if spec.extra is not None:
         try:
@@ -508,8 +515,8 @@ def run_check(spec, tier, seed, workers=None, runs=None, budget_s=None, out=sys.
         json.dump(ev, f, indent=1, sort_keys=True)
     for l in lines:
         print(l, file=out)
-    print('%s: %d runs (%d enumerated) in %.1fs, %d distinct non-trivial, %.0f virtual s, faults=%s'
-          % (spec.pid, agg['runs'], enum_total, wall, nd, agg['vt'], agg['faults']), file=out)
+    print('%s: %d runs (%d enumerated) in %.1fs (search %.1fs, slowest run %.2fs seed#%s), %d distinct non-trivial, %.0f virtual s, faults=%s'
+          % (spec.pid, agg['runs'], enum_total, wall, wall_search, agg['slowest'][0], agg['slowest'][1], nd, agg['vt'], agg['faults']), file=out)
     zero = [k for k, v in agg['probes'].items() if v == 0]
     if zero:
         print('WARNING: probes at zero: %s' % zero, file=out)
